@@ -32,19 +32,19 @@ CHECKS = [
     {
         "id": "C19", "engine": "E2/E3/E4.V1 operator consistency", "design_ref": "4 (E2, E3, E4 V1), 5 C19",
         "technique": "AST rules: super()-delegation agreement, reflected-operator operand order, operator presence by MRO, literal dispatch tables vs data-model oracle, constructor index-set abstract transfer",
-        "text": "Structural clauses of C19 only: every arithmetic dunder falls through to the same operator of its base class, reflected dunders swap operands, every operator C19 names exists for every concrete tensor class, the ufunc->dunder tables and the dispatcher's operand/name choice agree with the Python data model, and arithmetic results are constructed with index sets the constructor interprets correctly for collections. Exhaustive over all super() sites, dunders, table entries and construction sites of the package. The numbers returned and the index mapping of __getitem__ for arbitrary numpy indices are NOT decided.",
+        "text": "Structural clauses of C19 only: every arithmetic dunder falls through to the same operator of its base class, reflected dunders swap operands, every operator C19 names exists for every concrete tensor class, the ufunc->dunder tables and the dispatcher's operand/name choice agree with the Python data model, arithmetic results are constructed with index sets the constructor interprets correctly for collections, and transpose derives the result's index sets as the preimage (not the image) of the source sets under the permutation. Exhaustive over all super() sites, dunders, table entries and construction sites of the package. The numbers returned and the index mapping of __getitem__ for arbitrary numpy indices are NOT decided.",
         "note": "trusts: Python data model operator table, numpy ufunc names, recognised form of Tensor.__init__ (else UNDECIDED)",
     },
     {
         "id": "C04", "engine": "E6 kind closure", "design_ref": "4 (E6 K1, K2, K5), 5 C04",
         "technique": "class-table and AST rules: _element_class registry, MRO-resolved __getitem__ re-wrap and carried constructor attributes, np.empty buffer write coverage",
-        "text": "Structural part of C04's second sentence (indexing or iterating a collection yields the element class with its attributes intact): every concrete collection class registers an element class of its own family, its MRO-resolved __getitem__ re-wraps into that family and passes on constructor-parameter attributes (is_dual), __iter__ goes through self[i]; plus complete initialisation of np.empty buffers in vectorised branches. Exhaustive over the 7 collection classes and all np.empty buffers. Equality of vectorised and scalar branches and einsum alignment are NOT decided.",
+        "text": "Structural part of C04's second sentence (indexing or iterating a collection yields the element class with its attributes intact): every concrete collection class registers an element class of its own family, its MRO-resolved __getitem__ re-wraps into that family and passes on constructor-parameter attributes (is_dual), __iter__ goes through self[i]; integer indexing can reach the element class at all (constructor validation is not skipped for Tensor arguments; from_tensor/from_array fall back), __iter__ goes through self[i]; plus complete initialisation of np.empty buffers in vectorised branches and all()-quantified whole-array fast paths (a fast path guarded by any() leaves part of a collection unprocessed). Exhaustive over the 7 collection classes, all np.empty buffers and all return-the-parameter fast paths. Equality of vectorised and scalar branches and einsum alignment are NOT decided.",
         "note": "trusts the class table built from the source; helper re-wraps are followed two calls deep, otherwise UNDECIDED",
     },
     {
         "id": "C06", "engine": "E6 kind closure", "design_ref": "4 (E6 K3, K4), 5 C06",
         "technique": "AST rules over every __apply__ implementation resolved by MRO for every concrete class; derived-cache attributes found by role (annotated tensor attribute assigned in __init__)",
-        "text": "Kind and cache clauses of C06 only: the result of every __apply__ is derived from self.copy()/super().__apply__ or a constructor of the receiver's family, the cached supporting line/plane of polytopes is re-assigned on the result for every concrete class, and the type(self)(...) reconstructions in inverse/__pow__ are accepted by every transformation class. Associativity, inverse, powers and identity are numeric and NOT decided; a wrong matrix order is invisible to this check.",
+        "text": "Kind and cache clauses of C06 only: the result of every __apply__ is derived from self.copy()/super().__apply__ or a constructor of the receiver's family, every derived value cached on the instance (supporting line/plane of polytopes, cached_property or hand-made memo attributes) is re-assigned on the transformed object for every concrete class - self.copy() shares the instance __dict__, so a memo that is not reset answers for the ORIGINAL object -, and the type(self)(...) reconstructions in inverse/__pow__ are accepted by every transformation class. Associativity, inverse, powers and identity are numeric and NOT decided; a wrong matrix order is invisible to this check.",
         "note": "thin claim by design; trusts annotations `_line: LineTensor`, `_plane: PlaneTensor` to find the derived caches",
     },
     {
@@ -56,7 +56,7 @@ CHECKS = [
     {
         "id": "C14", "engine": "E6 kind closure", "design_ref": "4 (E6 K3), 5 C14",
         "technique": "constructor-signature compatibility of type(self)(...) / class-valued-local reconstruction sites against the __init__ of every inheriting concrete subclass",
-        "text": "One clause of C14: 'dual ... works for every quadric class' - the object construction inside QuadricTensor.dual (and therefore is_tangent) is accepted by the constructor that is actually selected for every concrete quadric subclass (Circle, Ellipse, Sphere, Cone, Cylinder, Conic, Quadric, QuadricCollection). All numeric clauses (intersection points, tangency, pole/polar reciprocity, involution) are NOT decided.",
+        "text": "One clause of C14: 'dual ... works for every quadric class' - the object construction inside QuadricTensor.dual (and therefore is_tangent) is accepted by the constructor that is actually selected for every concrete quadric subclass (Circle, Ellipse, Sphere, Cone, Cylinder, Conic, Quadric, QuadricCollection); and the error discipline behind intersect's degenerate/irreducible split: NotReducible is raised, reachable, not intercepted and raised as soon as ONE member of a collection is irreducible (all(), not any()). All numeric clauses (intersection points, tangency, pole/polar reciprocity, involution) are NOT decided.",
         "note": "parameter annotations of the subclass constructors are the oracle for 'accepts an ndarray'",
     },
     {
@@ -68,7 +68,7 @@ CHECKS = [
     {
         "id": "C07", "engine": "E4.V2/V3 + E8 variance and conjugation", "design_ref": "4 (E4 V2, V3), 5 C07",
         "technique": "constant propagation through constructor chains along the C3 MRO; AST rule on diagram edges of __apply__",
-        "text": "Variance clauses of C07 only: for every concrete projective class the constructor chain assigns the index types C07's mechanism sentence names (points covariant, hyperplanes/lines/quadrics contravariant, dual quadrics covariant, transformations (1,1)); the generic action contracts covariant indices with the matrix and contravariant indices with an inverse, tensor_shape[0] resp. [1] times. Commutation with join/meet, the basis-point transform and cross-ratio invariance are numeric and NOT decided.",
+        "text": "Variance clauses of C07 only: for every concrete projective class the constructor chain assigns the index types C07's mechanism sentence names (points covariant, hyperplanes/lines/quadrics contravariant, dual quadrics covariant, transformations (1,1)); the generic action contracts covariant indices with the matrix and contravariant indices with an inverse, tensor_shape[0] resp. [1] times; derived values cached on the instance (duals, supporting planes) move with the object. Commutation with join/meet, the basis-point transform and cross-ratio invariance are numeric and NOT decided.",
         "note": "thin claim by design; unresolvable constructor chains are UNDECIDED",
     },
     {
@@ -92,7 +92,7 @@ CHECKS = [
     {
         "id": "C05", "engine": "E7 error discipline", "design_ref": "4 (E7, E1), 5 C05",
         "technique": "E7 raise-site/ordering rules on add_edge; E1 whole-program effect analysis restricted to cache memory; def-use of the cached value against the cache key",
-        "text": "Two clauses of C05 (thin, labelled so): both TensorComputationError guards of add_edge exist, are reachable and come before the indices they test are consumed or recorded; the epsilon/delta caches are filled only by the owning constructor with a fresh array that depends on the cache key alone and no array aliasing a cache is written anywhere in the package. That calculate() builds the right einsum subscripts and that the epsilon/delta entries equal their definitions - the heart of C05 - is NOT decided; a mutant there is invisible to this check.",
+        "text": "Two clauses of C05 (thin, labelled so): both TensorComputationError guards of add_edge exist, are reachable and come before the indices they test are consumed or recorded; the epsilon/delta caches are filled only by the owning constructor with a fresh array that depends on the cache key alone is looked up and stored under one consistent key, and no array aliasing a cache is written anywhere in the package. That calculate() builds the right einsum subscripts and that the epsilon/delta entries equal their definitions - the heart of C05 - is NOT decided; a mutant there is invisible to this check.",
         "note": "shares the E1 engine run with C12",
     },
     {
@@ -104,7 +104,7 @@ CHECKS = [
     {
         "id": "C03", "engine": "E5 homogeneity typing", "design_ref": "4 (E5), 5 C03",
         "technique": "homogeneity-degree type system (abstract interpretation over the AST with path enumeration and interprocedural re-analysis); AST rule on the resolved __eq__ of every projective class",
-        "text": "For real non-zero scale factors and finite polytope vertices: every order/sign decision, equality/isclose, numeric return of a metric or measure function and point construction in the package is typed with the degree by which it scales when an argument's homogeneous coordinates are rescaled; a sink is PROVEN when both sides scale by the same positive factor (or it is a zero test), a VIOLATION when the degrees are definite and differ or carry a sign, UNDECIDED when the expression leaves the vocabulary (inhomogeneous sums, basis_matrix/null_space of raw data). == of every concrete projective class resolves to the scalar-multiple test. Quantifies over all representatives symbolically, which no test input built with Point(x, y) can. Magnitude effects of absolute tolerances, is_multiple itself and complex scale factors are NOT decided.",
+        "text": "For real non-zero scale factors and finite polytope vertices: every order/sign decision, equality/isclose, numeric return of a metric or measure function and point construction in the package is typed with the degree by which it scales when an argument's homogeneous coordinates are rescaled; a sink is PROVEN when both sides scale by the same positive factor (or it is a zero test), a VIOLATION when the degrees are definite and differ or carry a sign - including a projective object built directly from an array whose entries or summands have definite different degrees/signs (raw coordinates stored into an identity matrix, s*A + B) -, UNDECIDED when the expression leaves the vocabulary (inhomogeneous sums, basis_matrix/null_space of raw data). == of every concrete projective class resolves to the scalar-multiple test. Quantifies over all representatives symbolically, which no test input built with Point(x, y) can. Magnitude effects of absolute tolerances, is_multiple itself and complex scale factors are NOT decided.",
         "note": "assumes package primitives (join, meet, project, base_point, ...) return some representative of a representative-independent object; numpy operator degrees as tabulated in geolint/homog.py",
     },
     {
